@@ -14,7 +14,7 @@ use nom::{
         streaming::{char, digit1, newline},
     },
     combinator::{cut, map, map_res, opt},
-    sequence::{delimited, separated_pair, terminated, tuple},
+    sequence::{delimited, preceded, separated_pair, terminated, tuple},
 };
 
 use crate::response::{Error, ResponseFieldCache};
@@ -144,7 +144,7 @@ fn field_value(i: &[u8]) -> IResult<&[u8], &[u8]> {
 
 /// Recognize the header of a binary section
 fn binary_prefix(i: &[u8]) -> IResult<&[u8], usize> {
-    delimited(tag("binary: "), number, newline)(i)
+    preceded(tag("binary: "), cut(terminated(number, newline)))(i)
 }
 
 /// Recognize a binary field
